@@ -6,7 +6,7 @@ WIT = ["round_with_fills", "multi_fill_round", "round_with_3_fills", "market_vs_
 RULE = ("every operation history over the alphabet (clock step, limit/market submissions with and without time-to-live, "
         "cancels of live and dead orders, matching round, running switch) up to the stated depth from the empty book and "
         "from each seed book, in continuous and in batch mode, executed on a real Market; the statement of C01 is evaluated as a predicate on every matching round using the pre-round book and the returned fills; "
-        "distinct = canonical market states; plus every execution within deviation bound 1 (thorough: 2) of the whole-run scenario families of the "
+        "distinct = canonical market states; plus every execution within deviation bound 1 of the whole-run scenario families of the "
         "other checks (rules and shocks that rewrite orders, high-frequency agents, halts, index markets), judged against the limits as accepted")
 
 
